@@ -22,7 +22,7 @@ type NestCase struct {
 	Depth         int    // nest(Depth) is evaluated
 	Loop          int    // additionally the literal "A{{i}}B{{i * 2}}C" is evaluated for i = 1..Loop
 	BadFront      bool   `json:"bad_front,omitempty"` // the bad expression is the FIRST one of the loop literal (the good ones follow it)
-	Bad           int    `json:"bad,omitempty"` // > 0: the loop literal ends in a third expression, badCodes[Bad], which does not validate / parse / evaluate: an inline marker (any text) must appear, every time
+	Bad           int    `json:"bad,omitempty"`       // > 0: the loop literal ends in a third expression, badCodes[Bad], which does not validate / parse / evaluate: an inline marker (any text) must appear, every time
 }
 
 // code which parses but does not validate, does not parse, or fails when evaluated
